@@ -58,6 +58,11 @@ pub fn valid_messages() -> Vec<(Ty, Item)> {
 }
 
 pub fn explore(ex: &Ex) {
+    {
+        let mut eps: Vec<(Ty, Entry)> = MSG_TYPES.iter().map(|t| (*t, Entry::Slice)).collect();
+        eps.extend(crate::refcose::TAGGED_TYPES.iter().map(|t| (*t, Entry::Tagged)));
+        super::short_strings(ex, "c09.bytes", &eps, ex.pick(1usize, 2, 3));
+    }
     let full = gen::msg_slots();
     let small = gen::msg_slots_small();
     let tiny = gen::msg_slots_tiny();
